@@ -145,6 +145,13 @@ profiles.  The only "evaluation" is `const_eval` of constant expressions / modul
            strrep rules for one string), the parser keeps one node per statement in source order and as_dict lists them in that order - so
            the built profile equals the parsed one only if the helper emits one statement per item given, in the order given.
            `insert(<constant>, ..)` into self.tree.children is a violation (statements come out in another order than the calls).
+
+R13  (F27) as_dict reads `.type` on Token items only: for the statement productions of the grammar with two or more keyword literals
+     besides `set` (pinned: comment_dns_resolver, `"#" "dns_resolver" string ";"` - keyword literals are plain str in the
+     Reconstructor's item stream) every `.type` read on a loop variable over the line is dominated by isinstance(<it>, Token), or
+     the lines of those productions are taken out by a test of the first line item against the production's first keyword whose
+     branch ends in `continue` and dominates the read; a test of another shape is undecided.  Technique: grammar query, syntax-tree
+     query for the reads, facts of dominating branch edges, CFG dominance.
 """
 
 from __future__ import annotations
